@@ -31,6 +31,21 @@ with open(os.path.join(HERE, "ref", "commands.json")) as _f:
     REF = {k: v for k, v in json.load(_f).items() if not k.startswith("_")}
 
 
+with open(os.path.join(HERE, "ref", "command_args.json")) as _f:
+    REFARGS = json.load(_f)     # class -> {argument: [AVP class name, "M"|"O"]}, frozen at design time and validated
+                                # there against the naming convention argument_name -> ArgumentNameAVP
+
+
+def _conv(name):
+    return "".join(p.capitalize() for p in name.strip("_").split("_")) + "AVP"
+
+
+def _ref_avp_class(key, arg, fallback):
+    row = REFARGS.get(key, {}).get(arg)
+    name = row[0] if row else _conv(arg)
+    return getattr(G.bromelia.avps, name, fallback)
+
+
 def command_classes():
     out = {}
     for m in pkgutil.iter_modules(LIBPKG.__path__):
@@ -145,13 +160,15 @@ def typed(use: List[bool], ints: List[int], blob: bytes) -> bool:
         if kind == "obj":
             refs.append(payload)
         elif kind == "value":
-            ok = ok and type(a) is acls
-            refs.append(G.ref_for(acls, payload))
+            want = _ref_avp_class(key, name, acls)
+            ok = ok and type(a) is want
+            refs.append(G.ref_for(want, payload))
         else:                           # default value chosen by the class: AVP class must match, data taken as is
             if acls is None:
                 continue
-            ok = ok and type(a) is acls
-            refs.append(G.ref_for(acls, a.data if a.data is not None else b""))
+            want = _ref_avp_class(key, name, acls)
+            ok = ok and type(a) is want
+            refs.append(G.ref_for(want, a.data if a.data is not None else b""))
         k += 1
     refs += extra_refs
     ok = ok and len(avps) == len(refs)
@@ -195,6 +212,17 @@ def sweep():
         if key not in REF:
             bad.append(f"{key}: not in reference table")
             continue
+        for tbl, kind in ((cls.mandatory, "M"), (cls.optionals, "O")):
+            for arg, acls in tbl.items():
+                row = REFARGS.get(key, {}).get(arg)
+                if row is None:
+                    if _conv(arg) != acls.__name__ and hasattr(G.bromelia.avps, _conv(arg)):
+                        bad.append(f"{key}: argument {arg} mapped to {acls.__name__}, naming convention says {_conv(arg)}")
+                elif row[0] != acls.__name__ or row[1] != kind:
+                    bad.append(f"{key}: argument {arg} is {kind}:{acls.__name__}, reference table says {row[1]}:{row[0]}")
+        for arg in REFARGS.get(key, {}):
+            if arg not in cls.mandatory and arg not in cls.optionals:
+                bad.append(f"{key}: argument {arg} disappeared from the mandatory/optionals tables")
         base = {}
         dry = G.Leaves()
         for i, p in enumerate(_params(cls)):
